@@ -239,6 +239,8 @@ def build_sort(params, which):
             pre.append("bo_%s >= 0 and no_%s == 0" % (nid, nid))
         else:
             pre.append("bo_%s >= -1 and no_%s >= -1" % (nid, nid))
+        if params.get("large"):
+            pre.append("bo_%s >= 300 and no_%s >= 300" % (nid, nid))
     for i in range(n):
         args += [("pl%d" % i, "int"), ("ps%d" % i, "int"), ("pe%d" % i, "int")]
         pre.append("0 <= ps%d < pe%d <= pl%d" % (i, i, i))
@@ -297,7 +299,7 @@ def write_graph(wd, tags, name="g.gfa"):
     return p
 
 
-def real_sort(wd, paths, tags, nums, gz_in=False, gz_out=False, order=None, outind=None, want_index=True, no_final_newline=False, prior=False):
+def real_sort(wd, paths, tags, nums, gz_in=False, gz_out=False, order=None, outind=None, want_index=True, no_final_newline=False, prior=False, utf8=False):
     """runs the real run_sort on real files; returns (input lines, output lines, index dict, error)"""
     import pickle
     import pysam
@@ -314,8 +316,11 @@ def real_sort(wd, paths, tags, nums, gz_in=False, gz_out=False, order=None, outi
     for i in order:
         plen, ps, pe = nums[i]
         lines.append("r%d\t100\t0\t100\t+\t%s\t%d\t%d\t%d\t90\t100\t60\ttp:A:P\tcg:Z:10=" % (i, paths[i], plen, ps, pe))
+        if utf8:
+            # a comment with characters that take more than one byte in the file: character counts and byte offsets differ
+            lines[-1] += "\tco:Z:caf\u00e9 \u4e2d\u6587"
     gaf = os.path.join(wd, "in.gaf")
-    with open(gaf, "w") as fh:
+    with open(gaf, "w", encoding="utf-8") as fh:
         text = "".join(l + "\n" for l in lines)
         fh.write(text[:-1] if no_final_newline else text)
     if gz_in:
@@ -345,7 +350,7 @@ def real_sort(wd, paths, tags, nums, gz_in=False, gz_out=False, order=None, outi
                     outl.append(l.decode().rstrip("\n"))
                 fh.close()
             else:
-                fh = open(out)
+                fh = open(out, encoding="utf-8")
                 while True:
                     o = fh.tell()
                     l = fh.readline()
